@@ -1010,6 +1010,12 @@ def _main(a, pid, run, seed, t0):
                    'inputs': inputs, 'ghosts': gvals, 'native_replay': verdict, 'native_output': out,
                    'verifier': 'cbmc 6.11 (dfcc contracts)', 'checker_cmd': r.get('checker_cmd'),
                    'cbmc_trace_excerpt': trace_excerpt(fl.get('trace'))}, open(rp, 'w'), indent=1)
+        if r.get('mode') == 'fuf' and verdict != 'confirmed' and not r.get('needs_confirmation'):
+            # float operations / <cmath> abstracted as uninterpreted functions: a failed obligation without a natively confirmed input may be
+            # an artefact of the abstraction (an equivalent formula written differently) -- undecided, not a violation
+            r['status'] = 'undecided'; r['why'] = 'obligation %s failed under the uninterpreted-float abstraction (mode fuf) but no input was confirmed on the real code (replay: %s)' % (fl['property'], rp)
+            undecided.append(r)
+            continue
         if r.get('needs_confirmation') and verdict != 'confirmed':
             # bounded fallback without a natively confirmed input stays undecided
             r['status'] = 'undecided'; r['why'] = 'proof not attempted (%s); bounded fallback failed an obligation but no failing input was confirmed natively' % r.get('fallback_of', '')[:200]
